@@ -25,12 +25,23 @@ import Driver.FormCmd
       qubo <feas 0/1> <rho|none> get_qubo(feasibility, penalty_parameter)
       heur <high>                make_feasible(high)
 
-  Rationals are `p` or `p/q`, `inf` is `+∞` (window ends only).
+  and the public MUTATORS (each runs the hook `_problem_changed()` first, i.e. unsets all flags, also when it raises):
+
+      tp <k> t1 … tk                         add_time_points([t1 … tk])                 (arc only)
+      setV <v>                               set_max_vehicles(v)                        (seq only)
+      setL <l>                               set_max_sequence_length(l)                 (seq only)
+      addarc <orig> <dest> <time> <cost>     add_arc(orig, dest, time, cost)            (seq: the overriding add_arc)
+      addnode <name> <demand> <lo> <hi|inf>  add_node(name, demand, (lo, hi))
+      setdepot <name>                        set_depot(name)                            (seq: the overriding set_depot)
+      setcap <c>                             set_vehicle_cap(c)
+      setinit <l>                            set_initial_loading(l)
+
+  Rationals are `p` or `p/q`, `inf` is `+∞` (window ends only).  Node names are single tokens.
 
 ## reply
 
-    ok <group> | <group> | … | final <graph> | <solution>            (arc)
-    ok <group> | <group> | … | final <graph> | <V> <vcost> | <solution>   (seq)
+    ok <group> | <group> | … | final <graph> | tp <time points> | <solution>            (arc)
+    ok <group> | <group> | … | final <graph> | <V> <vcost> | L <l> | <solution>         (seq)
 
 one `<group>` per operation, in order (with zero operations the reply is `ok final …`):
 
@@ -39,7 +50,8 @@ one `<group>` per operation, in order (with zero operations the reply is `ok fin
 
 the flags are those AFTER the operation (`0`/`1`).  `<graph>` is printed by `showGraph`
 (`<#nodes> {name demand lo hi}* <#arcs> {i j orig dest time cost}* <cap|none> <init|none>`), `<vcost>` is a
-length-prefixed list of rationals, `<solution>` is `none` or a length-prefixed list of rationals
+length-prefixed list of rationals, `<time points>` is the length-prefixed list `time_points`, `<l>` is
+`max_sequence_length`, `<solution>` (always the LAST part) is `none` or a length-prefixed list of rationals
 (`feasible_solution`).
 
 Digests (all lists length-prefixed: `<k> x1 … xk`; a COO triple is `row col value`, a pair `row col`):
@@ -56,6 +68,10 @@ Digests (all lists length-prefixed: `<k> x1 … xk`; a COO triple is `row col va
     con err:assert                                     seq only: a consistency assertion of build_quadratic_constraints
     heur ok
     heur raised <err>                                  <err> ∈ err:value err:index err:assert err:type err:shape
+    done                                               normal return of a void mutator
+    done 1 | done 0                                    `add_arc` returned True / False
+    raised <err>                                       the mutator raised (unknown / duplicate name, inverted window:
+                                                       `raised err:value`); the flags are unset, the data unchanged
 
 `;` inside a digest and the ` ; flags` separator are literal tokens.
 -/
@@ -76,6 +92,12 @@ def pArcFOp : P ArcFOp := do
   | "con" => pure .constraints
   | "qubo" => do let f ← pBool; let r ← pRho; pure (.qubo f r)
   | "heur" => do let h ← pRat; pure (.heur h)
+  | "tp" => do let pts ← pList pRat; pure (.addTimePoints pts)
+  | "addarc" => do let o ← tok; let d ← tok; let tm ← pRat; let c ← pRat; pure (.addArc o d tm c)
+  | "addnode" => do let nm ← tok; let d ← pRat; let lo ← pRat; let hi ← pERat; pure (.addNode nm d lo hi)
+  | "setdepot" => do let nm ← tok; pure (.setDepot nm)
+  | "setcap" => do let c ← pRat; pure (.setVehicleCap c)
+  | "setinit" => do let l ← pRat; pure (.setInitialLoading l)
   | _ => throw s!"bad flags op {t}"
 
 def pSeqFOp : P SeqFOp := do
@@ -88,6 +110,13 @@ def pSeqFOp : P SeqFOp := do
   | "con" => pure .constraints
   | "qubo" => do let f ← pBool; let r ← pRho; pure (.qubo f r)
   | "heur" => do let h ← pRat; pure (.heur h)
+  | "setV" => do let v ← pNat; pure (.setMaxVehicles v)
+  | "setL" => do let l ← pNat; pure (.setMaxSeqLen l)
+  | "addarc" => do let o ← tok; let d ← tok; let tm ← pRat; let c ← pRat; pure (.addArc o d tm c)
+  | "addnode" => do let nm ← tok; let d ← pRat; let lo ← pRat; let hi ← pERat; pure (.addNode nm d lo hi)
+  | "setdepot" => do let nm ← tok; pure (.setDepot nm)
+  | "setcap" => do let c ← pRat; pure (.setVehicleCap c)
+  | "setinit" => do let l ← pRat; pure (.setInitialLoading l)
   | _ => throw s!"bad flags op {t}"
 
 /-- digest of a reply; `op` disambiguates what raised -/
@@ -99,7 +128,11 @@ def showArcReply (op : ArcFOp) (r : ArcReply) : String :=
   | .obj c n => s!"obj {showRats c} ; {n}"
   | .con A sh b n => s!"con {showList showTriple A} ; {showRats b} ; {sh.1} {sh.2} {n}"
   | .qubo q => showQuboOut q
-  | .done => "heur ok"
+  | .done =>
+    match op with
+    | .heur _ => "heur ok"
+    | _ => "done"
+  | .added b => s!"done {showBool b}"
   | .raised e =>
     match op with
     | .heur _ => s!"heur raised {showErr e}"
@@ -115,7 +148,11 @@ def showSeqReply (op : SeqFOp) (r : SeqReply) : String :=
   | .obj c Q n => s!"obj {showRats c} ; {showList showTriple Q} ; {n}"
   | .con A sh b R n => s!"con {showList showTriple A} ; {showRats b} ; {showList showPair R} ; {sh.1} {sh.2} {n}"
   | .qubo q => showQuboOut q
-  | .done => "heur ok"
+  | .done =>
+    match op with
+    | .heur _ => "heur ok"
+    | _ => "done"
+  | .added b => s!"done {showBool b}"
   | .raised e =>
     match op with
     | .heur _ => s!"heur raised {showErr e}"
@@ -145,14 +182,15 @@ def cmdFlagsArc : P String := do
   let I ← pArcInst; let ops ← pList pArcFOp; pEnd
   let r := runArcShow (ArcObj.init I) ops []
   let o := r.1
-  pure ("ok " ++ " | ".intercalate (r.2 ++ [s!"final {showGraph o.inst.g}", showOpt showRats o.sol]))
+  pure ("ok " ++ " | ".intercalate (r.2 ++ [s!"final {showGraph o.inst.g}", s!"tp {showRats o.inst.T}",
+    showOpt showRats o.sol]))
 
 def cmdFlagsSeq : P String := do
   let I ← pSeqInst; let ops ← pList pSeqFOp; pEnd
   let r := runSeqShow (SeqObj.init I) ops []
   let o := r.1
   pure ("ok " ++ " | ".intercalate (r.2 ++ [s!"final {showGraph o.inst.g}", s!"{o.inst.V} {showRats o.inst.vcost}",
-    showOpt showRats o.sol]))
+    s!"L {o.inst.L}", showOpt showRats o.sol]))
 
 def flagsCmds : List (String × P String) := [("flags.arc", cmdFlagsArc), ("flags.seq", cmdFlagsSeq)]
 
